@@ -17,7 +17,8 @@ from typing import Dict, List, Optional, Tuple
 
 from ..algebra import Poly, Rat, to_rat
 from ..index import AnalysisError, call_name, norm, norm1, names_in
-from .common import calls, enclosing, enclosing_all, fctx, in_body, is_name, method_calls, stmts
+from ..sem import Sem, built_container, reachable_helpers
+from .common import calls, const_of, enclosing, enclosing_all, fctx, in_body, is_name, kwarg, method_calls, pmatch, stmts
 
 LEVEL = "other"
 EXPLANATION = (
@@ -119,38 +120,54 @@ def run(ctx) -> None:
 
     # ---------------------------------------------------------------- R13.1
     r1 = ctx.rule("R13.1", "fder = n arms are the n-th central finite differences of the sea accumulation", min_instances=3)
-    arms: Dict[int, ast.Assign] = {}
-    for s in ast.walk(call.node):
-        if isinstance(s, ast.If) and isinstance(s.test, ast.Compare) and norm(s.test.left) == "self.fder" \
-                and isinstance(s.test.ops[0], ast.Eq) and isinstance(s.test.comparators[0], ast.Constant):
-            n = s.test.comparators[0].value
-            asg = [b for b in s.body if isinstance(b, ast.Assign) and is_name(b.targets[0], "restot")]
-            if n >= 1 and asg:
-                arms[n] = asg[0]
-            elif n == 0:
-                r1.check(all(isinstance(b, ast.Pass) for b in s.body), "fder=0 leaves the accumulation untouched", call, s,
-                         "the fder=0 arm modifies the accumulated Fermi-sea result")
+    CS = Sem(idx, call)
+    arms: Dict[int, Tuple[ast.AST, ast.AST, str, str, object]] = {}    # n -> (expression, report node, array name, dEF text, function)
+    for g_ in [call] + reachable_helpers(idx, call):
+        GS = Sem(idx, g_)
+        for s_ in ast.walk(g_.node):
+            if not (isinstance(s_, ast.If) and isinstance(s_.test, ast.Compare) and len(s_.test.ops) == 1 and isinstance(s_.test.ops[0], ast.Eq)
+                    and isinstance(s_.test.comparators[0], ast.Constant) and isinstance(s_.test.comparators[0].value, int)):
+                continue
+            if GS.rnorm(s_.test.left, GS.cfg.node(s_)) != "self.fder" and norm(s_.test.left) != "self.fder":
+                continue
+            n = s_.test.comparators[0].value
+            val = None
+            for b_ in s_.body:
+                if isinstance(b_, ast.Assign) and isinstance(b_.targets[0], ast.Name):
+                    val = (b_.value, b_)
+                elif isinstance(b_, ast.Return) and b_.value is not None:
+                    val = (b_.value, b_)
+            if n == 0:
+                okz = all(isinstance(b_, ast.Pass) for b_ in s_.body) or (val is not None and isinstance(val[0], ast.Name))
+                r1.check(okz, "fder=0 leaves the accumulation untouched", g_, s_, "the fder=0 arm modifies the accumulated Fermi-sea result")
+            elif val is not None:
+                # the array the stencil acts on and the step symbol
+                arrs = {norm(x.value) for x in ast.walk(val[0]) if isinstance(x, ast.Subscript) and isinstance(x.slice, ast.Tuple) and len(x.slice.elts) == 2
+                        and isinstance(x.slice.elts[1], ast.Slice)}
+                steps = {norm(x) for x in ast.walk(val[0]) if isinstance(x, (ast.Name, ast.Attribute)) and GS.rnorm(x, GS.cfg.node(s_)) == "self.dEF"}
+                if len(arrs) == 1 and len(steps) == 1:
+                    arms[n] = (val[0], val[1], next(iter(arrs)), next(iter(steps)), g_)
     for n in (1, 2, 3):
         if n not in arms:
             r1.violation(call, call.node, f"no finite-difference arm for fder={n}", stmt=f"fder == {n}")
             continue
-        st = arms[n]
-        r1.instance(f"{call.short}: fder={n}: {norm1(st, 100)}")
+        expr_node, st, arr, hname, g_ = arms[n]
+        r1.instance(f"{g_.short}: fder={n}: {norm1(st, 100)}")
         syms: Dict[str, Tuple[int, int]] = {}
 
-        def env(x):
-            if isinstance(x, ast.Subscript) and norm(x.value) == "restot":
+        def env(x, arr=arr, hname=hname):
+            if isinstance(x, ast.Subscript) and norm(x.value) == arr:
                 a, b = _slice_sym(x)
                 nm = f"S_{a}_{b}"
                 syms[nm] = (a, b)
                 return Rat.sym(nm)
-            if isinstance(x, ast.Attribute) and norm(x) == "self.dEF":
+            if isinstance(x, (ast.Attribute, ast.Name)) and norm(x) == hname:
                 return Rat.sym("h")
             return None
-        expr = to_rat(st.value, env)
+        expr = to_rat(expr_node, env)
         widths = {a - b for a, b in syms.values()}
         if len(widths) != 1:
-            r1.violation(call, st, f"fder={n}: the slices {sorted(syms.values())} do not all have the same length: shapes "
+            r1.violation(g_, st, f"fder={n}: the slices {sorted(syms.values())} do not all have the same length: shapes "
                          f"mismatch or levels are mis-aligned")
             continue
         two_h = widths.pop()
@@ -165,58 +182,133 @@ def run(ctx) -> None:
         target = target / (Rat.sym("h") ** n)
         got = {k: v for k, v in syms.items()}
         ok = expr.equals(target) and half == table.get(n)
-        r1.check(ok, f"fder={n}: stencil {dict((o, str(c)) for o, c in want_st.items())}/h^{n} with half-width {half}", call, st,
-                 f"the fder={n} arm `{norm1(st.value, 120)}` (offsets {sorted(a - half for a, _ in got.values())}) is not the "
+        r1.check(ok, f"fder={n}: stencil {dict((o, str(c)) for o, c in want_st.items())}/h^{n} with half-width {half}", g_, st,
+                 f"the fder={n} arm `{norm1(expr_node, 120)}` (offsets {sorted(a - half for a, _ in got.values())}) is not the "
                  f"central finite difference {dict((o, str(c)) for o, c in want_st.items())}/dEF^{n} of the Fermi-sea result: the "
                  f"Fermi-surface calculator is no longer the derivative of the Fermi-sea calculator with the same formula")
 
     # ---------------------------------------------------------------- R13.3
     r3 = ctx.rule("R13.3", "Fermi-sea accumulation semantics", min_instances=3)
-    loop_if = [s for s in ast.walk(call.node) if isinstance(s, ast.If) and norm(s.test).replace(" ", "") == "E<self.EFmin"]
-    if len(loop_if) != 1:
+    ladders = [s_ for s_ in ast.walk(call.node) if isinstance(s_, ast.If) and isinstance(s_.test, ast.Compare) and len(s_.test.ops) == 1
+               and isinstance(s_.test.ops[0], ast.Lt) and norm(s_.test.comparators[0]) == "self.EFmin" and isinstance(s_.test.left, ast.Name)]
+    if len(ladders) != 1:
         raise AnalysisError("StaticCalculator.__call__: `if E < self.EFmin:` accumulation ladder not found")
-    li = loop_if[0]
+    li = ladders[0]
+    Ev = li.test.left.id
     r3.instance(f"{call.short}: accumulation ladder")
-    b0 = norm(li.body[0]).replace(" ", "") if li.body else ""
-    r3.check(b0.startswith("restot[ik_to_result(ik)]+=valuesik[n][None]*weight_select_bands(n[0],n[1],self.select_bands)"),
-             "groups below the scan contribute to every Fermi level", call, li.body[0] if li.body else li,
-             "a band group lying below the whole Fermi-level scan is not added to all levels")
+    lp_g = enclosing(pm, li, ast.For)
+    gv = None
+    if lp_g is not None and isinstance(lp_g.target, ast.Tuple) and len(lp_g.target.elts) == 2 and norm(lp_g.target.elts[1]) == Ev:
+        gv = norm(lp_g.target.elts[0])
+
+    def result_index_ok(e: ast.AST, at: int) -> bool:
+        """row of the result a k-point contributes to: ik if k-resolved else 0"""
+        ikv = None
+        for l_ in enclosing_all(pm, li, ast.For):
+            if isinstance(l_.iter, ast.Call) and call_name(l_.iter) == "enumerate" and isinstance(l_.target, ast.Tuple):
+                ikv = norm(l_.target.elts[0])
+        r_ = CS.resolve(e, at)
+        if isinstance(r_, ast.IfExp):
+            return (norm(r_.test) == "self.k_resolved" and norm(r_.body) == ikv and const_of(r_.orelse) == 0) or \
+                (norm(r_.test) == "not self.k_resolved" and norm(r_.orelse) == ikv and const_of(r_.body) == 0)
+        if isinstance(e, ast.Call) and isinstance(e.func, ast.Name) and len(e.args) == 1 and norm(e.args[0]) == ikv:
+            defs_ = [n for n in ast.walk(call.node) if isinstance(n, ast.FunctionDef) and n.name == e.func.id]
+            res_ = {}
+            for d_ in defs_:
+                g_if = enclosing(pm, d_, ast.If)
+                if g_if is None or norm(g_if.test) != "self.k_resolved":
+                    return False
+                rr = [x for x in ast.walk(d_) if isinstance(x, ast.Return)]
+                if len(rr) != 1:
+                    return False
+                res_[in_body(g_if.body, d_)] = norm(rr[0].value)
+            par = {True: defs_[0].args.args[0].arg if defs_ else None}
+            return len(defs_) == 2 and set(res_) == {True, False} and res_[False] == "0" and \
+                res_[True] == [d_ for d_ in defs_ if in_body(enclosing(pm, d_, ast.If).body, d_)][0].args.args[0].arg
+        return False
+
+    def acc_store(st_: ast.stmt):
+        """(row expr, column slice or None, value) of `restot[row(, slice)] += value`"""
+        if isinstance(st_, ast.AugAssign) and isinstance(st_.op, ast.Add) and isinstance(st_.target, ast.Subscript):
+            sl = st_.target.slice
+            if isinstance(sl, ast.Tuple) and len(sl.elts) == 2:
+                return norm(st_.target.value), sl.elts[0], sl.elts[1], st_.value
+            return norm(st_.target.value), sl, None, st_.value
+        return None
+
+    def value_ok(v: ast.AST, at: int, lead_none: bool) -> bool:
+        """values_k[G](…[None]) * weight_select_bands(G[0], G[1], self.select_bands)"""
+        if not (isinstance(v, ast.BinOp) and isinstance(v.op, ast.Mult)):
+            return False
+        for a_, w_ in ((v.left, v.right), (v.right, v.left)):
+            if isinstance(w_, ast.Call) and call_name(w_) == "weight_select_bands" and len(w_.args) == 3:
+                ar = [CS.rnorm(x, at) for x in w_.args]
+                base = a_.value if (lead_none and isinstance(a_, ast.Subscript) and const_of(a_.slice) is None) else a_
+                if lead_none and base is a_:
+                    return False
+                if isinstance(base, ast.Subscript) and norm(base.slice) == gv:
+                    bres = CS.rnorm(base.value, at)
+                    return ar[0] in (f"{gv}[0]",) and ar[1] in (f"{gv}[1]",) and ar[2] == "self.select_bands" and bres.startswith("values[")
+        return False
+    b0 = acc_store(li.body[0]) if li.body else None
+    okb0 = b0 is not None and b0[2] is None and gv is not None and result_index_ok(b0[1], cfg.node(li.body[0])) and value_ok(b0[3], cfg.node(li.body[0]), True)
+    r3.check(okb0, "groups below the scan contribute to every Fermi level", call, li.body[0] if li.body else li,
+             "a band group lying below the whole Fermi-level scan is not added (with its band-selection weight) to all levels")
     el = li.orelse[0] if li.orelse and isinstance(li.orelse[0], ast.If) else None
-    okel = el is not None and norm(el.test).replace(" ", "") == "E<=self.EFmax" and not el.orelse
+    okel = el is not None and norm(el.test).replace(" ", "") == f"{Ev}<=self.EFmax" and not el.orelse
     r3.check(okel, "groups above the scan contribute to no level", call, el or li,
              "band groups above EFmax are accumulated (or groups inside the scan are skipped)")
     if el is not None:
-        tb = [norm(s).replace(" ", "") for s in el.body]
-        r3.check(len(tb) == 2 and tb[0] == "iEf=ceil((E-self.EFmin)/self.dEF)" and
-                 tb[1].startswith("restot[ik_to_result(ik),iEf:]+=valuesik[n]*weight_select_bands(n[0],n[1],self.select_bands)"),
-                 "a group at energy E is added to the levels EF ≥ E: index ceil((E − EFmin)/dEF) onwards", call, el.body[0],
+        sts = [x for x in el.body if not (isinstance(x, ast.Expr) and isinstance(x.value, ast.Constant))]
+        b1 = acc_store(sts[-1]) if sts else None
+        oki = False
+        if b1 is not None and b1[2] is not None and isinstance(b1[2], ast.Slice) and b1[2].upper is None and b1[2].step is None and b1[2].lower is not None:
+            lo = CS.rnorm(b1[2].lower, cfg.node(sts[-1]))
+            oki = lo in (f"ceil(({Ev} - self.EFmin) / self.dEF)", f"math.ceil(({Ev} - self.EFmin) / self.dEF)", f"int(np.ceil(({Ev} - self.EFmin) / self.dEF))") and \
+                b1[0] == (b0[0] if b0 else b1[0]) and result_index_ok(b1[1], cfg.node(sts[-1])) and value_ok(b1[3], cfg.node(sts[-1]), False)
+        r3.check(oki, "a group at energy E is added to the levels EF ≥ E: index ceil((E − EFmin)/dEF) onwards", call, el.body[0],
                  f"a group at energy E is accumulated as `{'; '.join(norm1(s, 70) for s in el.body)}`: not 'all Fermi levels at or above "
                  f"E' (occupation is counted below the band or one level late)")
+    r3.check(lp_g is not None and norm(lp_g.iter).startswith("sorted(") and norm(lp_g.iter).endswith(".items())"), "groups are visited in band order", call, lp_g or li,
+             "the accumulation no longer iterates sorted(weights.items())")
     tc = norm(call.node).replace(" ", "")
     r3.instance(f"{call.short}: sea flag")
-    r3.check("sea=self.fder==0" in tc, "bands below the window are completed only for the Fermi sea (fder = 0)", call, call.node,
-             "the `sea` completion is not tied to fder == 0", stmt="sea=(self.fder == 0)")
+    gcalls = [c_ for c_ in ast.walk(call.node) if isinstance(c_, ast.Call) and isinstance(c_.func, ast.Attribute) and c_.func.attr == "get_bands_in_range_groups"]
+    seav = kwarg(gcalls[0], "sea") if len(gcalls) == 1 else None
+    r3.check(seav is not None and norm(seav).replace(" ", "") in ("self.fder==0", "0==self.fder"), "bands below the window are completed only for the Fermi sea (fder = 0)", call,
+             gcalls[0] if gcalls else call.node, "the `sea` completion is not tied to fder == 0", stmt="sea=(self.fder == 0)")
     r3.instance(f"{init.short}: hole_like")
-    r3.check("ifself.hole_likeandself.fder==0:self.constant_factor*=-1" in ti.replace("\n", ""),
-             "hole_like flips the sign for the Fermi sea only", init, init.node, "hole_like sign handling changed", stmt="hole_like")
-    r3.check("der=-1ifself.hole_likeelseself.fder" in tc, "tetrahedron: hole_like uses the anti-sea weights", call, call.node,
+    IS = Sem(idx, init)
+    hl = [s_ for s_ in stmts(init.node) if isinstance(s_, ast.AugAssign) and norm(s_.target) == "self.constant_factor" and isinstance(s_.op, ast.Mult) and const_of(s_.value) == -1]
+    okhl = len(hl) == 1 and {t_ for t_, p_, _ in IS.conditions(hl[0], resolve=False) if p_} >= {"self.hole_like"} and \
+        any(t_ in ("0 == self.fder", "self.fder == 0") and p_ for t_, p_, _ in IS.conditions(hl[0], resolve=False))
+    r3.check(okhl, "hole_like flips the sign for the Fermi sea only", init, hl[0] if hl else init.node, "hole_like sign handling changed", stmt="hole_like")
+    wcalls = [c_ for c_ in ast.walk(call.node) if isinstance(c_, ast.Call) and isinstance(c_.func, ast.Attribute) and c_.func.attr == "weights_all_band_groups"]
+    derv = kwarg(wcalls[0], "der", 1) if len(wcalls) == 1 else None
+    r3.check(derv is not None and bool(pmatch(derv, "-1 if self.hole_like else self.fder") or pmatch(derv, "self.fder if not self.hole_like else -1")),
+             "tetrahedron: hole_like uses the anti-sea weights", call, wcalls[0] if wcalls else call.node,
              "tetrahedron weights no longer use der=-1 for hole_like", stmt="der=-1")
 
     # ---------------------------------------------------------------- R13.4
     r4 = ctx.rule("R13.4", "k-resolved path = unresolved path up to the result index and 1/nk")
     r4.instance(call.short)
-    nf = {n.name: n for n in ast.walk(call.node) if isinstance(n, ast.FunctionDef) and n.name == "ik_to_result"}
-    defs = [n for n in ast.walk(call.node) if isinstance(n, ast.FunctionDef) and n.name == "ik_to_result"]
-    rets = sorted(norm(s.value) for d in defs for s in ast.walk(d) if isinstance(s, ast.Return))
-    r4.check(len(defs) == 2 and rets == ["0", "_ik"], "ik_to_result is the identity (resolved) or 0 (unresolved)", call,
-             defs[0] if defs else call.node, f"ik_to_result returns {rets}")
-    r4.check("ifnotself.k_resolved:restot/=data_K.nk" in tc.replace("\n", ""), "only the unresolved result is divided by nk", call,
-             call.node, "the 1/nk normalisation is not applied exactly to the k-summed result", stmt="restot /= nk")
-    r4.check("EnergyResult(self.Efermi,restot[0]," in tc and "K__Result([restot]," in tc, "result wrappers take the matching array", call,
-             call.node, "result construction changed", stmt="result wrappers")
-    uses = [n for n in ast.walk(call.node) if isinstance(n, ast.Subscript) and norm(n.value) == "restot" and isinstance(n.ctx, ast.Store)]
-    r4.check(all("ik_to_result(ik)" in norm(u) for u in uses) and len(uses) >= 3, "every accumulation goes through ik_to_result", call,
-             uses[0] if uses else call.node, "an accumulation into restot bypasses ik_to_result: resolved and summed results differ")
+    accs = [s_ for s_ in stmts(call.node) if isinstance(s_, ast.AugAssign) and isinstance(s_.op, ast.Add) and isinstance(s_.target, ast.Subscript)
+            and b0 is not None and norm(s_.target.value) == b0[0]]
+    r4.check(len(accs) >= 3 and all(result_index_ok(acc_store(s_)[1], cfg.node(s_)) for s_ in accs),
+             "every accumulation goes to row ik (k-resolved) or row 0 (summed over k)", call, accs[0] if accs else call.node,
+             "an accumulation into the result does not go to row `ik if k_resolved else 0`: resolved and summed results differ")
+    nkdiv = [s_ for s_ in stmts(call.node) if isinstance(s_, ast.AugAssign) and isinstance(s_.op, ast.Div) and b0 is not None and norm(s_.target) == b0[0]
+             and CS.rnorm(s_.value, cfg.node(s_)) in ("data_K.nk",)]
+    oknk = len(nkdiv) == 1 and any(t_ == "self.k_resolved" and p_ is False for t_, p_, _ in CS.conditions(nkdiv[0], resolve=False))
+    r4.check(oknk, "only the unresolved result is divided by nk", call, nkdiv[0] if nkdiv else call.node,
+             "the 1/nk normalisation is not applied exactly to the k-summed result", stmt="restot /= nk")
+    er = [c_ for c_ in ast.walk(call.node) if isinstance(c_, ast.Call) and call_name(c_) == "EnergyResult"]
+    kr = [c_ for c_ in ast.walk(call.node) if isinstance(c_, ast.Call) and call_name(c_) == "K__Result"]
+    okw = len(er) == 1 and len(kr) == 1 and b0 is not None and len(er[0].args) >= 2 and norm(er[0].args[1]) == f"{b0[0]}[0]" and norm(er[0].args[0]) == "self.Efermi" \
+        and kr[0].args and norm(kr[0].args[0]) == f"[{b0[0]}]" and \
+        any(t_ == "self.k_resolved" and p_ for t_, p_, _ in CS.conditions(enclosing(pm, kr[0], ast.stmt), resolve=False)) and \
+        any(t_ == "self.k_resolved" and p_ is False for t_, p_, _ in CS.conditions(enclosing(pm, er[0], ast.stmt), resolve=False))
+    r4.check(okw, "result wrappers take the matching array", call, er[0] if er else call.node, "result construction changed", stmt="result wrappers")
 
     # ---------------------------------------------------------------- R13.5
     r5 = ctx.rule("R13.5", "band groups are half-open [ib1, ib2) everywhere", min_instances=4)
@@ -240,14 +332,38 @@ def run(ctx) -> None:
              f"the fully-occupied block [0, bandmax) is clamped with `{norm1(clamp[0].value) if clamp else '?'}` instead of the START "
              f"of the first in-range group: lower members of a multi-band group straddling the lowest Fermi level are counted twice")
     tg = norm(gk.node).replace(" ", "")
-    r5.check("weights[0,bandmax]=-np.inf" in tg and "ifbandmax>0:" in tg, "the below-scan block is [0, bandmax) with energy −inf", gk,
+    r5.check(("weights[0,bandmax]=-np.inf" in tg or "weights[(0,bandmax)]=-np.inf" in tg) and "ifbandmax>0:" in tg, "the below-scan block is [0, bandmax) with energy −inf", gk,
              gk.node, "the below-scan block is no longer keyed (0, bandmax) with E = −inf", stmt="weights[(0, bandmax)]")
-    r5.check("self.E_K[ik,ib1:ib2].mean()" in tg, "a group's energy is the mean over exactly its bands", gk, gk.node,
+    GKS = Sem(idx, gk)
+    okmean = False
+    for dc in [n for n in ast.walk(gk.node) if isinstance(n, ast.DictComp) and len(n.generators) == 1 and isinstance(n.generators[0].target, ast.Tuple)]:
+        t1, t2 = (norm(x) for x in dc.generators[0].target.elts[:2])
+        at_ = GKS.cfg.node(enclosing(GKS.pm, dc, ast.stmt))
+        vtxt = norm(GKS._res_comp(dc.value, at_, 8, set(), True, {t1, t2}))
+        ikp_ = gk.params[1]
+        okmean = okmean or (norm(dc.key) == f"({t1}, {t2})" and vtxt in (f"self.E_K[{ikp_}, {t1}:{t2}].mean()", f"self.E_K[{ikp_}][{t1}:{t2}].mean()", f"np.mean(self.E_K[{ikp_}, {t1}:{t2}])"))
+    r5.check(okmean, "a group's energy is the mean over exactly its bands", gk, gk.node,
              "group energy is not the mean over [ib1, ib2)", stmt="group energy")
     gb = idx.function(TET, "get_bands_below_range")
     r5.instance(gb.short)
-    tb_ = norm(gb.node).replace(" ", "")
-    r5.check("np.where(Ebandmax<emin)[0]" in tb_ and "returnadd[-1]+1" in tb_ and "return0" in tb_,
+    BS = Sem(idx, gb)
+    brets = [s_ for s_ in stmts(gb.node) if isinstance(s_, ast.Return) and s_.value is not None]
+    okb = len(brets) == 2
+    seen_forms = set()
+    for r_ in brets:
+        v_ = BS.resolve(r_.value, BS.cfg.node(r_))
+        if const_of(v_) == 0:
+            seen_forms.add("zero")
+            continue
+        m_ = pmatch(v_, "X_[-1] + 1", {"X_"})
+        if m_ and m_[0][0] is v_ and m_[0][1]["X_"].replace(" ", "") in ("np.where(Ebandmax<emin)[0]", "np.nonzero(Ebandmax<emin)[0]", "np.flatnonzero(Ebandmax<emin)"):
+            nonempty = any((t_.replace(" ", "") in ("len(add)>0", "len(below)>0") and p_) or (t_.replace(" ", "").startswith("0==len(") and not p_) or
+                           (t_.replace(" ", "").startswith("len(") and t_.replace(" ", "").endswith(")>0") and p_) or
+                           (t_.replace(" ", "").startswith("len(") and t_.replace(" ", "").endswith(")==0") and not p_)
+                           for t_, p_, _ in BS.conditions(r_, resolve=False))
+            if nonempty:
+                seen_forms.add("last+1")
+    r5.check(okb and seen_forms == {"zero", "last+1"},
              "number of bands entirely below emin = last such index + 1", gb, gb.node,
              "get_bands_below_range no longer returns (index of the last band below emin) + 1", stmt="add[-1] + 1")
     gi = idx.function(TET, "get_bands_in_range")
@@ -260,11 +376,44 @@ def run(ctx) -> None:
     # ---------------------------------------------------------------- R13.6
     r6 = ctx.rule("R13.6", "non-additive formulas: group value = trace(0..ib2) − trace(0..ib1)")
     r6.instance(call.short)
-    r6.check("inn=np.arange(0,n)" in tc and "out=np.arange(n,NB)" in tc and "values[ik][n]=_values[n[1]]-_values[n[0]]" in tc,
-             "cumulative traces differenced at the group borders", call, call.node,
-             "the non-additive branch no longer differences cumulative traces at the group borders", stmt="non-additive")
-    r6.check("inn=np.arange(n[0],n[1])" in tc and "out=np.concatenate((np.arange(0,n[0]),np.arange(n[1],NB)))" in tc,
-             "additive formulas: trace over the group with the complement as outer states", call, call.node,
+    from .groups import check_group_trace, trace_sites, classify_trace
+    infos = []
+    for S_, g_, c_ in trace_sites(idx, call):
+        info = classify_trace(S_, c_)
+        info["call"], info["sem"] = c_, S_
+        infos.append(info)
+    seas = [i_ for i_ in infos if i_["kind"] == "sea"]
+    grps = [i_ for i_ in infos if i_["kind"] == "group"]
+    # the cumulative traces are stored per border b: T[b] = trace(0..b); the group value is T[ib2] − T[ib1]
+    okna = False
+    if len(seas) == 1:
+        sc = seas[0]["call"]
+        Q = str(seas[0]["Q"])
+        holder = None
+        par = pm.get(sc)
+        st_ = enclosing(pm, sc, ast.stmt)
+        if isinstance(st_, ast.Assign) and isinstance(st_.targets[0], ast.Subscript) and st_.value is sc and CS.rnorm(st_.targets[0].slice, cfg.node(st_)) == Q:
+            holder = norm(st_.targets[0].value)
+        dc = enclosing(pm, sc, ast.DictComp)
+        if holder is None and dc is not None and dc.value is sc and norm(dc.key) == Q and isinstance(st_, ast.Assign) and st_.value is dc:
+            holder = norm(st_.targets[0])
+        if holder is not None:
+            for n_ in ast.walk(call.node):
+                if isinstance(n_, ast.BinOp) and isinstance(n_.op, ast.Sub) and isinstance(n_.left, ast.Subscript) and isinstance(n_.right, ast.Subscript) \
+                        and norm(n_.left.value) == holder == norm(n_.right.value):
+                    hi, lo = norm(n_.left.slice), norm(n_.right.slice)
+                    # (lo, hi) must be the two ends of one group: n[0], n[1] or the tuple target (ib1, ib2)
+                    same = (hi.endswith("[1]") and lo.endswith("[0]") and hi[:-3] == lo[:-3])
+                    x = n_
+                    while x in pm and not same:
+                        x = pm[x]
+                        tg_ = [x.target] if isinstance(x, ast.For) else [g__.target for g__ in x.generators] if isinstance(x, (ast.DictComp, ast.ListComp, ast.GeneratorExp)) else []
+                        same = any(isinstance(t_, ast.Tuple) and [norm(e_) for e_ in t_.elts] == [lo, hi] for t_ in tg_)
+                    okna = okna or same
+    r6.check(okna, "cumulative traces differenced at the group borders", call, seas[0]["call"] if seas else call.node,
+             "the non-additive branch no longer differences cumulative traces trace(0..ib2) − trace(0..ib1) at the group borders", stmt="non-additive")
+    r6.check(len(grps) == 1 and str(grps[0]["NB"]).endswith(".num_wann"),
+             "additive formulas: trace over the group with the complement as outer states", call, grps[0]["call"] if grps else call.node,
              "the additive branch no longer traces over exactly the group", stmt="additive")
 
 
